@@ -37,6 +37,7 @@ func (dec *yamlDecoder) processReadStream(reader *bufio.Reader) (io.Reader, stri
 	// for a comment line itself)
 	var commentLineRegEx = regexp.MustCompile(`^[ \t]*#`)
 	var yamlDirectiveLineRegEx = regexp.MustCompile(`^[ \t]*%YA`)
+	var blankLineRegEx = regexp.MustCompile(`^[ \t]*\n`)
 	var sb strings.Builder
 	// set while the text looked at follows a `--- ` on the same line: it belongs to the document (`--- --- x` is the
 	// scalar "--- x"), only a comment may still be leading content
@@ -53,7 +54,9 @@ func (dec *yamlDecoder) processReadStream(reader *bufio.Reader) (io.Reader, stri
 			return reader, sb.String(), nil
 		} else if err != nil {
 			return reader, sb.String(), err
-		} else if string(peekBytes[0]) == "\n" {
+		} else if blankLineRegEx.MatchString(string(peekBytes)) {
+			// (a line of blanks or tabs counts as an empty line)
+			afterSeparatorOnThisLine = false
 			_, err := reader.ReadString('\n')
 			sb.WriteString("\n")
 			if errors.Is(err, io.EOF) {
